@@ -427,11 +427,9 @@ Definition pie_attrs (v : ver) (u : Z) (p : pobj) : list rattr :=
 
 Definition srv_attrs (v : ver) (st : store) (u : Z) : res (list rattr) :=
   match find_row u (s_rows st) with None => Err | Some r => Ok (pie_attrs v u (sql_in r)) end.
-(* the client's decoder of a KMIP 2.0 Attributes structure (AttributeValueFactory.create_attribute_value_by_enum) raises
-   NotImplementedError on the Certificate Type tag: the application gets an exception instead of the attributes *)
-Definition client_attrs (v : ver) (l : list rattr) : res (list rattr) :=
-  if ver_ge v (2, 0) && existsb (fun x => Nat.eqb (fst (fst x)) A_CTYPE) l then Err else Ok l.
-Definition get_attributes (v : ver) (st : store) (u : Z) : res (list rattr) := do l <- srv_attrs v st u; client_attrs v l.
+(* what ProxyKmipClient.get_attributes hands to the application: the server's list (the client's KMIP 2.0 decoder handles
+   every attribute the engine reports since fix 426caf8) *)
+Definition get_attributes (v : ver) (st : store) (u : Z) : res (list rattr) := srv_attrs v st u.
 
 (* GetAttributeListResponsePayload keeps the first occurrence of every name *)
 Fixpoint dedup_nat (seen : list nat) (l : list nat) : list nat :=
